@@ -228,10 +228,47 @@ def build_ops(dadi):
                G.Wald_stat(shared, pts, boots, p, data, nested, [x * 1.1 for x in p], multinom=False)]
         # the parameters handed in must come back unchanged (they are part of the result so that a change shows up in the digest)
         return np.concatenate([np.ravel(np.asarray(out, dtype=float)), np.asarray(p, dtype=float)])
+    # ---- demes calls the way an optimiser makes them: ONE set of argument objects per process (sampled demes, sample sizes, sample
+    # times, grids), handed to every call; the sampled deme 'B' ends before the present, so that with sample_times=None the
+    # ancient-sample route is selected by the resolved sampling times
+    demes_args = dict(sd=['A', 'B'], ns=[4, 3], pts=[8, 10, 12], times=[0.0, 6.0])
+    def demes_graph(r):
+        import demes
+        b = demes.Builder(time_units='generations')
+        b.add_deme('anc', epochs=[dict(start_size=1000.0, end_time=200)])
+        b.add_deme('A', ancestors=['anc'], epochs=[dict(start_size=float(r.integers(800, 2000)), end_time=0)])
+        b.add_deme('B', ancestors=['anc'], epochs=[dict(start_size=float(r.integers(300, 900)), end_time=6)])
+        if r.random() < 0.5: b.add_pulse(sources=['A'], dest='B', proportions=[0.1], time=20)
+        return b.resolve()
+    @op
+    def demes_ancient(r):
+        g = demes_graph(r); a = demes_args
+        kind = int(r.integers(3))
+        if kind == 0: fs = dadi.Demes.SFS(g, a['sd'], a['ns'], a['pts'][1])
+        elif kind == 1: fs = dadi.Demes.SFS(g, a['sd'], a['ns'], a['pts'][0], sample_times=a['times'])
+        else: fs = dadi.Spectrum.from_demes(g, a['sd'], a['ns'], a['pts'])
+        # the shared arguments are part of the result
+        code = [float(ord(c)) for c in '|'.join(list(a['sd']) + list(fs.pop_ids))] + [float(x) for x in a['ns'] + a['pts'] + a['times']]
+        return np.concatenate([np.ma.filled(fs, -1.0).ravel(), np.array(code)])
+    @op
+    def demes_export(r):
+        # a native program recorded with deme names, exported with one of several name mappings / units; the record is rebuilt by
+        # every call (phi_1D starts a new record), so the export is a function of this call's inputs only
+        import json
+        xx = dadi.Numerics.default_grid(10); ids1 = ['anc']; ids2 = ['popA', 'popB']
+        phi = dadi.PhiManip.phi_1D(xx, deme_ids=ids1)
+        phi = dadi.Integration.one_pop(phi, xx, 0.1, float(r.uniform(0.5, 2)), deme_ids=ids1)
+        phi = dadi.PhiManip.phi_1D_to_2D(xx, phi, deme_ids=ids2)
+        phi = dadi.Integration.two_pops(phi, xx, 0.05, 1.0, float(r.uniform(0.5, 2)), m12=1.0, deme_ids=ids2)
+        phi = dadi.PhiManip.phi_2D_admix_1_into_2(phi, 0.2, xx, xx)
+        phi = dadi.Integration.two_pops(phi, xx, 0.05, 1.0, 2.0, deme_ids=ids2)
+        kw = [dict(), dict(Nref=100.0), dict(Nref=100.0, generation_time=2.0), dict(deme_mapping={'west': ['popA']}), dict(Nref=50.0, deme_mapping={'root': ['anc', 'popB']})][int(r.integers(5))]
+        g = dadi.Demes.output(**kw)
+        return np.array([float(ord(c)) for c in json.dumps(g.asdict(), sort_keys=True) + '|'.join(ids1 + ids2)])
     assert len(ops) == N_OPS, len(ops)
     return ops
 
-N_OPS = 33
+N_OPS = 35
 
 # ---------------------------------------------------------------- memo tables: one input varied at a time
 # For every memo table of the library a family of calls whose cached computation has the inputs listed in MEMO_INPUTS.
